@@ -32,6 +32,7 @@
     pgen.recombine <tok;tok;…|E> <i,j,…|N>             _recombine_skipped -> [cps,cps,…]
     pgen.init <info wire (class attributes)> <now_year> <dayfirst> <yearfirst>     parserinfo.__init__ on those class tables
         -> year century dayfirst yearfirst ; jump keys ; weekdays ; months ; hms ; ampm ; utczone keys ; pertain keys
+    pgen.tzinfo <tzinfos wire> <tzname|N> <tzoffset|->        _build_tzinfo -> d<data> | s<cps> | f <name> <seconds>
     pgen.naive <year|-> <month|-> <day|-> <weekday|-> <hour|-> <minute|-> <second|-> <microsecond|-> <default [7 ints]>
                                                        _build_naive -> Y M D h m s us
     pgen.step <info> <year> <century> <fuzzy> <i> <tok;tok;…> <classes> <ymd> <hour|-> <ampm|-> <tzname|N> <tzoffset|->
@@ -244,6 +245,12 @@ def handleFn (op : String) (args : List String) : Option String :=
     let sd (l : List (Token × Nat)) : String := ",".intercalate ((dd l).map fun p => showCps p.1 ++ "=" ++ toString p.2)
     some (showR (fun i : Info => s!"{i.year} {i.century} {showB i.dayfirst} {showB i.yearfirst} ; {sk i.jump} ; {sd i.weekdays} ; {sd i.months} ; {sd i.hms} ; {sd i.ampm} ; {sk i.utczoneKeys} ; {sk i.pertain}")
       (Gen.P.info_init t y (df == "1") (yf == "1")))
+  | "pgen.tzinfo", [tzi, name, off] => do
+    let tzi ← parseTzInfos? tzi; let name ← optName? name; let off ← parseOptInt? off
+    some (showR (fun o : PPy.TzObj => match o with
+        | .data d => "d" ++ showTzData d
+        | .tzstr s => "s" ++ showCps s
+        | .fixed nm n => s!"f {showOptName nm} {n}") (Gen.P.buildTzinfo dflt tzi name off))
   | "pgen.assigntz", [n0, n1, name] => do
     let a ← optName? n0; let b ← optName? n1; let n ← optName? name
     some (showR (fun d : PPy.FoldDt => toString d.fold) (Gen.P.assignTzname dflt { n0 := a, n1 := b } n))
